@@ -69,8 +69,8 @@ def run(ctx):
                 what = "proxy exchange %s, origin answers Content-Type class %r, rules block %s%s (assumed types %s): model %s, proxy %s" % (
                     c["req"], c["ct"], blocked, " + $document exception" if docexc else "", m["types"], m["expected"], m["got"])
             else:
-                what = "content-script endpoint %s%s: model status %s, proxy %s (selector in the body as its Content-Encoding says: %s)" % (
-                    c["c"], ", server compresses" if m.get("server_compresses") else "", m["expected"], m["got"], m["selector_in_body"])
+                what = "content-script endpoint %s%s: model %s, proxy %s (the body read as its Content-Encoding says)" % (
+                    c["c"], ", server compresses" if m.get("server_compresses") else "", m["expected"], m["got"])
             ctx.report(what, {"reexec": ["replay-session"], "blocked": blocked, "docexc": docexc, "input": [c]},
                        {"cause": "proxy-session", "entry": m["entry"]})
         # code -> spec
